@@ -13,7 +13,7 @@ if REPO not in sys.path:
 
 NAMES = ['a', 'b1', 'foo', '_x', 'value']
 NUMS = ['0', '7', '42', '3.5', '10.25']
-STRS = ['"s"', "'t'", '"a b"', '"x\\\\"', '"q\\"r"', "'it\\'s'", 'r"raw\\d"', 'f"{a}"', '"""doc"""', '""', '"\\\\\\\\"', '"#no"']
+STRS = ['"s"', "'t'", '"a b"', '"x\\\\"', '"q\\"r"', "'it\\'s'", 'r"raw\\d"', 'r"a\\"b"', "r'it\\'s'", 'r"\\\\"', 'f"{a}"', '"""doc"""', '""', '"\\\\\\\\"', '"#no"']
 OPS = ['+', '-', '*', '/', '%', '==', '!=', '<=', '>=', '<', '>', '&', '|', '^', '<<', '>>', '**', '->', ':=', '=', '+=', '-=', '*=', '/=', '%=', '&=', '|=', '^=', '.', ',', '~', '@']
 
 
